@@ -11,7 +11,7 @@ import (
 
 func init() { Props["C03"] = runC03 }
 
-var variantNames = []string{"correct", "wrong", "case", "slash", "query", "prefix", "ext", "empty", "absent"}
+var variantNames = []string{"correct", "wrong", "case", "slash", "query", "prefix", "ext", "empty", "absent", "pad-trailing", "pad-leading", "pad-newlines"}
 
 // near-miss variants of a correct value; nil = absent
 func variant(v string, k int) *string {
@@ -35,6 +35,12 @@ func variant(v string, k int) *string {
 		return sp(v + "x")
 	case 7:
 		return sp("")
+	case 9:
+		return sp(v + " ")
+	case 10:
+		return sp(" " + v)
+	case 11:
+		return sp("\n\t" + v + "\n")
 	}
 	return nil
 }
